@@ -400,7 +400,11 @@ Json genTopoSession(Rng &r, const std::string &tier) {
             Json f = Json::obj(); f.set("at", at); Json l = Json::arr(); l.push((long)r.below(n)); l.push((double)r.range(-40, 40)); l.push((double)r.range(-40, 40)); f.set("lock", l); fl.push(f);
             Json u = Json::obj(); u.set("at", at + r.range(2, 30)); u.set("unlock", true); fl.push(u);
         }
-        if (r.chance(0.35)) { Json f = Json::obj(); f.set("at", r.range(1, 20)); Json z = Json::arr(); z.push((long)r.below(n)); z.push((double)r.range(-1, 3) * 10); z.push((double)r.range(-1, 3) * 10); f.set("resize", z); fl.push(f); }
+        if (r.chance(0.35)) { Json f = Json::obj(); f.set("at", r.range(1, 20)); Json z = Json::arr(); z.push((long)r.below(n)); z.push((double)r.range(-1, 3) * 10); z.push((double)r.range(-1, 3) * 10);
+            // side stream: now and then a node grows by several times its size (a label edited, a group expanded) -- neighbours are pushed
+            // far enough for bends to be merged away while the node is still growing
+            { Rng r2(Rng::mix(r.s, "big-resize")); if (r2.chance(0.3)) { if (r2.chance(0.7)) z.a[1] = Json((double)r2.range(4, 12) * 10); if (r2.chance(0.7)) z.a[2] = Json((double)r2.range(4, 12) * 10); } }
+            f.set("resize", z); fl.push(f); }
         if (fl.size()) o.set("faults", fl);
         // single-axis runs: the coordinates of the other axis keep their grid values for the whole run, so that sides of
         // different nodes (and the bends created on them) coincide exactly -- the tie cases of the scan-line code
